@@ -15,6 +15,7 @@ import (
 	"github.com/hujm2023/go-sms-protocol/cmpp/cmpp20"
 	"github.com/hujm2023/go-sms-protocol/codec"
 	"github.com/hujm2023/go-sms-protocol/datacoding"
+	"github.com/hujm2023/go-sms-protocol/datacoding/gsm7encoding"
 	"github.com/hujm2023/go-sms-protocol/smgp"
 	"github.com/hujm2023/go-sms-protocol/smgp/smgp30"
 	"github.com/hujm2023/go-sms-protocol/smpp"
@@ -76,7 +77,7 @@ type hres struct {
 	label string // site for finding keys
 }
 
-var hopName = []string{"decode", "encode", "String", "split", "ParseLongSmsContent", "Utf8ToUcs2Pooled", "ExtractDeliveryReceipt", "Build", "helper-packet", "status-report", "refused-encode-then-encode", "String-foreign-id", "decode-into-kept-value"}
+var hopName = []string{"decode", "encode", "String", "split", "ParseLongSmsContent", "Utf8ToUcs2Pooled", "ExtractDeliveryReceipt", "Build", "helper-packet", "status-report", "refused-encode-then-encode", "String-foreign-id", "decode-into-kept-value", "text-codec-on-caller-buffer", "optional-container-image"}
 
 // breakField makes a value the encoder must refuse (or at least treat unusually): the k-th text field outside the
 // header, or the first element of the k-th text list, is replaced by long.
@@ -295,12 +296,20 @@ func genHistory(c *core.Chooser, prop string, tid int, maxOps int) []hop {
 	ops := make([]hop, 0, n)
 	for i := 0; i < n; i++ {
 		var o hop
-		weights := []int{5, 4, 2, 2, 1, 2, 1, 0, 2, 1, 1, 1, 2}
+		weights := []int{5, 4, 2, 2, 1, 2, 1, 0, 2, 1, 1, 1, 2, 2, 2}
 		if prop == "C13" {
 			weights[7] = 2
 		}
 		o.kind = c.Pick(weights...)
 		switch o.kind {
+		case 13:
+			o.coding = c.Intn(12) // which codec entry point
+			fam := []family{famASCII, famASCII, famLatin1, famUCS2, famGBK, famGSM7U}[c.Intn(6)]
+			o.text = genSMSText(c, fam, 1+c.Intn(90), nil2run)
+		case 14:
+			o.smpp = c.Bool()
+			o.coding = c.Intn(1 << 20) // sub-seed for tags and values
+			o.ref = byte(c.Intn(5))    // number of parameters
 		case 10, 11, 12:
 			pd := proto.PDUs[c.Intn(len(proto.PDUs))]
 			o.pd, o.msg = pd, spec.Gen(c, pd, spec.GenOpt{MaxDests: 3, MaxBody32: 60, BinNoNul: true, NoTail: o.kind == 11})
@@ -317,6 +326,9 @@ func genHistory(c *core.Chooser, prop string, tid int, maxOps int) []hop {
 				o.frame, _ = spec.Build(o.msg)
 			}
 		case 0, 1, 2:
+			if o.kind == 0 {
+				o.ref = byte(c.Intn(2)) // under a blocking reader: keep the frame (1) or the decoded value (0)
+			}
 			pd := proto.PDUs[c.Intn(len(proto.PDUs))]
 			opt := spec.GenOpt{MaxDests: 2, MaxBody32: 120, BinNoNul: true}
 			if o.kind == 2 {
@@ -376,6 +388,8 @@ type taskState struct {
 	cd    codec.Codec
 	done  bool
 	kept  map[string]protocol.PDU // values the task decodes into again and again
+	// blocked: the task reads its connection through the blocking extractor, whose frames belong to the caller
+	blocked bool
 }
 
 // execOp performs one operation and returns the live result.
@@ -389,6 +403,10 @@ func execOp(r *core.Run, t *taskState, o hop) (live any, label string, panicked 
 			var view []byte
 			var err error
 			for {
+				if t.blocked {
+					view, err = t.cd.DecodeBlocked(t.conn)
+					break
+				}
 				view, err = t.cd.Decode(t.conn)
 				if !errors.Is(err, codec.ErrPacketNotComplete) {
 					break
@@ -403,6 +421,11 @@ func execOp(r *core.Run, t *taskState, o hop) (live any, label string, panicked 
 			}
 			if err != nil {
 				live = "framing error: " + err.Error()
+				return
+			}
+			if t.blocked && o.ref == 1 {
+				// the frame a blocking extractor returns is the caller's: it is kept as it is, unscribbled
+				live = withBirth{live: view, birth: snapshot(view)}
 				return
 			}
 			pdu, derr := dispatcher[t.proto](view)
@@ -571,6 +594,95 @@ func execOp(r *core.Run, t *taskState, o hop) (live any, label string, panicked 
 			}
 		})
 		return live, label, p
+	case 13:
+		names := []string{"Latin1.Encode", "Latin1.Decode", "UCS2.Encode", "UCS2.Decode", "GB18030.Encode", "GB18030.Decode", "GSM7Unpacked.Encode", "GSM7Unpacked.Decode", "GSM7Packed.Encode", "GSM7Packed.Decode", "gsm7encoding.Pack", "gsm7encoding.Unpack"}
+		k := o.coding % len(names)
+		label = "datacoding." + names[k]
+		p := r.Call(label, func() {
+			// the caller's own buffer goes in; it is overwritten right after the call
+			buf := []byte(o.text)
+			if k%2 == 1 || k >= 10 {
+				// decoders get the reference encoding of the text (septets for the packers)
+				fam := []family{famLatin1, famLatin1, famUCS2, famUCS2, famGBK, famGBK, famGSM7U, famGSM7U, famGSM7U, famGSM7U, famGSM7U, famGSM7U}[k]
+				u, ok := refEncode(fam, o.text)
+				if !ok {
+					u, _ = refEncode(famUCS2, o.text)
+				}
+				buf = append([]byte(nil), u...)
+				if k == 9 || k == 11 {
+					buf = refPack(buf)
+				}
+			}
+			var out []byte
+			var err error
+			switch k {
+			case 0:
+				out, err = datacoding.Latin1(buf).Encode()
+			case 1:
+				out, err = datacoding.Latin1(buf).Decode()
+			case 2:
+				out, err = datacoding.UCS2(buf).Encode()
+			case 3:
+				out, err = datacoding.UCS2(buf).Decode()
+			case 4:
+				out, err = datacoding.GB18030(buf).Encode()
+			case 5:
+				out, err = datacoding.GB18030(buf).Decode()
+			case 6:
+				out, err = datacoding.GSM7Unpacked(buf).Encode()
+			case 7:
+				out, err = datacoding.GSM7Unpacked(buf).Decode()
+			case 8:
+				out, err = datacoding.GSM7Packed(buf).Encode()
+			case 9:
+				out, err = datacoding.GSM7Packed(buf).Decode()
+			case 10:
+				out = gsm7encoding.Pack(buf)
+			default:
+				out = gsm7encoding.Unpack(buf)
+			}
+			if err != nil {
+				live = "codec error"
+			} else {
+				live = withBirth{live: out, birth: snapshot(out)}
+			}
+			for i := range buf {
+				buf[i] = 0x5A
+			}
+		})
+		return live, label, p
+	case 14:
+		label = "smgp.Options.Serialize"
+		if o.smpp {
+			label = "smpp.TLVs.Bytes"
+		}
+		p := r.Call(label, func() {
+			g := core.NewSeedChooser(uint64(o.coding) + 1)
+			mk := func(salt int) []byte {
+				tl, op := smpp.TLVs{}, smgp.Options{}
+				for i := 0; i < int(o.ref); i++ {
+					tag := uint16(1 + (o.coding+i*7+salt)%30)
+					val := g.Blob(g.Intn(24), "any")
+					tl.SetTLV(smpp.NewTLV(tag, val))
+					op.Add(smgp.NewOption(smgp.Tag(tag), val))
+				}
+				if o.smpp {
+					return tl.Bytes()
+				}
+				return op.Serialize()
+			}
+			// (the default reorder hook emits the triplets sorted by tag, so the image is a function of the set;
+			// it hands images of fewer than two triplets through untouched)
+			b := mk(0)
+			pre := snapshot(b)
+			// FAULT scribble_output: the image of another container belongs to someone else
+			b2 := mk(1)
+			for i := range b2 {
+				b2[i] = 0xC3
+			}
+			live = withBirth{live: b, birth: pre}
+		})
+		return live, label, p
 	case 8:
 		helpers := []struct {
 			name string
@@ -647,6 +759,12 @@ func newTaskState(r *core.Run, id int, ops []hop, disc simnet.Discipline) *taskS
 	return t
 }
 
+// setBlocked switches the task to the blocking extractor (before its first operation).
+func (t *taskState) setBlocked(disc simnet.Discipline) {
+	t.blocked = true
+	t.conn = simnet.NewSimConn(disc, 64, t.link)
+}
+
 func runHistories(r *core.Run, prop string) {
 	c := r.C
 	nTasks := 1 + c.Intn(4)
@@ -664,13 +782,21 @@ func runHistories(r *core.Run, prop string) {
 	poison := c.Bool()
 	var tasks []*taskState
 	for i := 0; i < nTasks; i++ {
-		tasks = append(tasks, newTaskState(r, i, genHistory(c, prop, i, maxOps), disc))
+		t := newTaskState(r, i, genHistory(c, prop, i, maxOps), disc)
+		if c.Prob(1, 3) {
+			t.setBlocked(disc)
+			r.Probe("blocking_reader_task")
+		}
+		tasks = append(tasks, t)
 	}
 	r.Event("%s tasks=%d disc=%d poison=%v", prop, nTasks, disc, poison)
 
 	// ---- sequential, fault-free reference pass (hooks off, fresh connections)
 	for _, t := range tasks {
 		ref := newTaskState(nil2run, t.id, t.ops, simnet.Compact)
+		if t.blocked {
+			ref.setBlocked(simnet.Compact)
+		}
 		for _, o := range t.ops {
 			lv, label, p := execOp(nil2run, ref, o)
 			if p != nil {
@@ -719,6 +845,14 @@ func runHistories(r *core.Run, prop string) {
 					return
 				}
 				live, birth := unwrap(lv)
+				switch o.kind {
+				case 10:
+					r.Probe("refused_encode_in_history")
+				case 11:
+					r.Probe("string_of_foreign_id")
+				case 12:
+					r.Probe("decode_into_kept_value")
+				}
 				if o.kind == 0 {
 					r.Fault("scribble_input")
 				}
@@ -818,7 +952,7 @@ func RaceWorkload(seed uint64, idx uint64, cold bool) (mismatch string, tasks, o
 	}
 	// seeded Gosched at a subset of the yield sites; no shared counter (an atomic would order the tasks)
 	gosched := map[string]bool{}
-	for _, site := range []string{"writer.new", "writer.release", "writer.op", "stringer.new", "stringer.release", "stringer.op", "ucs2pool.get", "ucs2pool.put", "batch.run"} {
+	for _, site := range []string{"writer.new", "writer.release", "writer.op", "stringer.new", "stringer.release", "stringer.op", "ucs2pool.get", "ucs2pool.put", "batch.run", "split.part"} {
 		gosched[site] = core.Mix(seed, site, idx)%2 == 0
 	}
 	verifhook.YieldFn = func(site string, key ...int) {
